@@ -1,4 +1,4 @@
-import MazeVerif.Lemmas.PixelsAscii
+import MazeVerif.Lemmas.PixelsText
 /-! # C10 — pixel and ASCII renderings are faithful and invertible
 
 Model: `MZ.Pix` (`Model/Pixels.lean`; lattice_maze.py `_as_pixels_bw`, `as_pixels`, `_from_pixel_grid_bw`,
@@ -219,9 +219,9 @@ def C10_roundtrip_ascii_full : Prop :=
   ∀ (m : Maze) (se ss : Bool), Good m → Accepted se ss → Recoverable m se ss →
     ∃ s, asAscii m se ss = .ok s ∧ fromAscii m.kind s = .ok (canonMaze m)
 
-/-- **ASCII round trip, proved on the character grid** (`_partial`: the text layer — join, strip, split — is not
-    covered by this theorem; the harness compares it with the real strings on every case): the character grid of
-    `as_ascii`, mapped back to colours by `from_ascii`'s pairing loop and read by `from_pixels`, returns the maze -/
+/-- **ASCII round trip on the character grid** (kept as the grid-level half of `C10_roundtrip_ascii`; the text layer —
+    join, strip, split, per-line strip — is added by the full theorem below): the character grid of `as_ascii`, mapped
+    back to colours by `from_ascii`'s pairing loop and read by `from_pixels`, returns the maze -/
 theorem C10_roundtrip_ascii_partial (m : Maze) (se ss : Bool) (hg : Good m) (hf : Accepted se ss) (hr : Recoverable m se ss) :
     ∃ a, asAsciiGrid m se ss = .ok a ∧ asAscii m se ss = .ok (joinLines a.toLists) ∧
       fromAsciiGrid m.kind a = .ok (canonMaze m) := by
@@ -230,6 +230,28 @@ theorem C10_roundtrip_ascii_partial (m : Maze) (se ss : Bool) (hg : Good m) (hf 
   have hs : Shows (asciiToPixels a) m se ss :=
     ⟨(asciiToPixels_dims a).1.trans a2, (asciiToPixels_dims a).2.trans a3, asciiToPixels_spec m se ss a a4⟩
   exact read_of_shows hg hs hr
+
+/-- every row of the drawing starts and ends with `#`, there is at least one row and one column (`2·rows+1`,
+    `2·cols+1` — also for `rows = 0` or `cols = 0`, where the drawing is a column / row of `#`), and no character is a
+    newline: the facts that make `strip`, `split("\n")` and the per-line `strip` of `from_ascii` the identity -/
+theorem C10_ascii_framed (m : Maze) (se ss : Bool) (a : Img Char) (hg : Good m) (h : asAsciiGrid m se ss = .ok a) :
+    Framed a := by
+  have hf : Accepted se ss := by
+    rintro ⟨rfl, rfl⟩
+    simp [asAsciiGrid, asPixels] at h
+  obtain ⟨a', a1, a2, a3, a4⟩ := asAsciiGrid_spec m se ss hg.2.1 hf
+  rw [h] at a1
+  cases a1
+  exact framed_of_spec m se ss hg.1 hg.2.1 hg.2.2 a a2 a3 a4
+
+/-- **ASCII round trip, on the text**: for every good maze of any kind and size (degenerate `rows = 0` / `cols = 0`
+    included — no extra hypothesis is needed) and every accepted flag pair under which the picture determines the maze,
+    `from_ascii` (`strip()`, `split("\n")`, per-line `strip()`, `np.array`, pairing loop, `from_pixels`) of the string
+    `as_ascii` returns (`"\n".join` of the rows) is the maze: same kind, size, connection array, start, end, solution -/
+theorem C10_roundtrip_ascii : C10_roundtrip_ascii_full := by
+  intro m se ss hg hf hr
+  obtain ⟨a, a1, a2, a3⟩ := C10_roundtrip_ascii_partial m se ss hg hf hr
+  exact ⟨joinLines a.toLists, a2, by rw [fromAscii_joinLines m.kind (C10_ascii_framed m se ss a hg a1)]; exact a3⟩
 
 /-! ## non-vacuity: a 2×2 maze (three connections, one wall), its 4-cell shortest solution, all stages evaluated -/
 private def exE : List Edge := [(0, 0, 0), (0, 0, 1), (1, 0, 0)]
@@ -241,6 +263,15 @@ example : (match asPixels exM true true with | .ok g => g.toLists | .error _ => 
 example : (match asAscii exM true true with | .ok s => String.ofList s | .error _ => "") = "#####\n#XXX#\n#X#X#\n#S#E#\n#####" := by decide
 example : (match asPixels exM true true with | .ok g => fromPixels .solved g | .error e => .error e) = .ok exM := by decide
 example : (match asAscii exM true true with | .ok s => fromAscii .solved s | .error e => .error e) = .ok exM := by decide
+/-- non-vacuity of `C10_roundtrip_ascii` / `C10_ascii_framed`: the text layer is exercised on a 5-line string whose
+    pieces are evaluated one by one (strip = id, split gives the 5 rows, per-line strip = id) -/
+example : (match asAscii exM true true with | .ok s => (splitLines (strip s)).map strip | .error _ => []) =
+    ["#####".toList, "#XXX#".toList, "#X#X#".toList, "#S#E#".toList, "#####".toList] := by decide
+/-- the text layer is not trivially the identity: surrounding blanks / newlines are removed, inner blanks are kept -/
+example : (splitLines (strip " \n### \n# #\n###\n\n".toList)).map strip = ["###".toList, "# #".toList, "###".toList] := by decide
+/-- degenerate sizes are covered: a `0×0` maze is the text `#`, a `0×1` maze is `###`, and both read back -/
+example : asAscii (.lattice 0 0 []) true true = .ok "#".toList ∧ fromAscii .lattice "#".toList = .ok (.lattice 0 0 []) ∧
+    asAscii (.lattice 0 1 []) true true = .ok "###".toList ∧ fromAscii .lattice "###".toList = .ok (.lattice 0 1 []) := by decide
 example : asPixels exM false true = .error .value := (C10_flag_combo exM).1
 private theorem exWF : WF 2 2 exE := by
   intro e he
@@ -253,6 +284,14 @@ example : Good exM := by
   rcases hx with rfl | rfl | rfl | rfl <;> simp [inGrid]
 example : Good (.targeted 2 2 exE (0, 1) (1, 0)) ∧ Recoverable (.targeted 2 2 exE (0, 1) (1, 0)) true false :=
   ⟨⟨exWF, ⟨by simp [inGrid], by simp [inGrid]⟩, trivial⟩, rfl, by decide⟩
+/-- `C10_roundtrip_ascii` instantiated: all three hypotheses hold for a targeted 2×2 maze, and the conclusion is the
+    concrete text round trip -/
+example : ∃ s, asAscii (.targeted 2 2 exE (0, 1) (1, 0)) true false = .ok s ∧
+    fromAscii .targeted s = .ok (canonMaze (.targeted 2 2 exE (0, 1) (1, 0))) :=
+  C10_roundtrip_ascii (.targeted 2 2 exE (0, 1) (1, 0)) true false
+    ⟨exWF, ⟨by simp [inGrid], by simp [inGrid]⟩, trivial⟩ (by simp [Accepted]) ⟨rfl, by decide⟩
+example : (match asAscii (.targeted 2 2 exE (0, 1) (1, 0)) true false with | .ok s => String.ofList s | .error _ => "") =
+    "#####\n#  S#\n# # #\n#E# #\n#####" := by decide
 /-- the hypothesis `IsShortest` is satisfiable by a non-trivial path -/
 example : IsShortest [(1, 0, 0)] [(0, 0), (0, 1)] := by
   refine ⟨⟨Or.inr (Or.inr (Or.inl ⟨rfl, by simp⟩)), trivial⟩, ?_⟩
